@@ -109,6 +109,10 @@ def gen_harnesses(tier, seed):
                                    ("Dependent[object, Equals('a')]", "v == 'a'"), ("Dependent[object, Equals('b')]", "v == 'b'")],
        "a: int, s: str, k: int", "(a, s, [a], {s: a}, [s, a])[k % 5]", "len(s) <= 2", prelude=PRE + "\nfrom ovld.dependent import Equals", extra_static=("object",),
        warm=("1", "2", "'a'", "[1]", "{'a': 1}"))
+    vm("c11_list_and_tuple_ellipsis", [("list[int]", "isinstance(v, list) and (not v or isinstance(v[0], int))"),
+                                       ("tuple[int, ...]", "isinstance(v, tuple) and (not v or isinstance(v[0], int))")],
+       "a: int, s: str, k: int", "([a], (a,), [s], (s, a), [], (), (a, a))[k % 7]", "len(s) <= 2", extra_static=("object",),
+       warm=("[1]", "(1,)", "['a']", "('a', 1)", "[]", "()"))
     vm("c11_tuple_ellipsis", [("tuple[int, ...]", "isinstance(v, tuple) and (not v or isinstance(v[0], int))")],
        "a: int, s: str, k: int", "((a,), (a, a, a), (s, a), (), (a, s))[k % 5]", "len(s) <= 2", extra_static=("tuple", "object"),
        warm=("(1,)", "(1, 2, 3)", "('a', 1)", "()"))
@@ -116,6 +120,9 @@ def gen_harnesses(tier, seed):
        "a: int, s: str, k: int", "(a, s)[k % 2]", "len(s) <= 2", prelude=PRE + "\nfrom ovld.types import HasMethod", extra_static=("object",), warm=("'a'", "'b'", "3"))
     vm("c11_regexp", [("Regexp['a+b']", "isinstance(v, str) and _re.search('a+b', v) is not None")],
        "s: str", "s", "len(s) <= 3", prelude=PRE, extra_static=("str", "object"), warm=("'ab'", "'b'", "'xab'"))
+    vm("c11_regexp_anchored_alternation", [("Regexp['^a|b']", "isinstance(v, str) and _re.search('^a|b', v) is not None"),
+                                           ("Regexp['^xy|y$']", "isinstance(v, str) and _re.search('^xy|y$', v) is not None")],
+       "s: str", "s", "len(s) <= 3", prelude=PRE, extra_static=("str", "object"), warm=("'ab'", "'xb'", "'xy'", "'zy'", "'q'"))
     vm("c11_haskey", [("HasKey['a']", "isinstance(v, dict) and 'a' in v"), ("HasKey['a', 'b']", "isinstance(v, dict) and 'a' in v and 'b' in v")],
        "i: int, j: int, x: int", "{('a', 'b', 'c')[i % 3]: x, ('a', 'b', 'c')[j % 3]: x}", None, prelude=PRE, extra_static=("dict", "object"),
        warm=("{'a': 1}", "{'a': 1, 'b': 2}", "{'c': 1}"))
